@@ -473,6 +473,25 @@ def _fit_linear(g):
             return f'lstsq is called with {k.arg}'
     if len(ls.args) != 2:
         return 'lstsq is not called with (A, z)'
+    # rows without a value may be left out of the solve: A[valid], z[valid]
+    # with valid = isfinite(z) & all(isfinite(A), axis=1)
+    a0, a1 = ls.args
+    row_mask = None
+    if isinstance(a0, ast.Subscript) and isinstance(a1, ast.Subscript) and \
+            isinstance(a0.slice, ast.Name) and \
+            unparse(a0.slice) == unparse(a1.slice):
+        md = defs.get(a0.slice.id)
+        src_ = unparse(md).replace(' ', '') if md is not None else ''
+        if md is not None and 'np.isfinite(' in src_ and all(
+                isinstance(c_, ast.Call) and unparse(c_.func) in (
+                    'np.isfinite', 'np.all') or not isinstance(c_, ast.Call)
+                for c_ in ast.walk(md)):
+            row_mask = a0.slice.id
+            ls = ast.Call(func=ls.func, args=[a0.value, a1.value],
+                          keywords=ls.keywords)
+        else:
+            return ('rows are selected for the solve by a mask that is not '
+                    'the finiteness of the samples')
     rhs = _strip_ravel(resolve(ls.args[1]))
     if unparse(rhs) != 'self.z':
         return (f'the right-hand side of the solve is {unparse(rhs)}, not '
@@ -571,6 +590,37 @@ def fit(ctx):
     # with unit coefficient at the sample points, z the data - a linear solve
     # (an iterative solver with an absolute tolerance and a finite-difference
     # Jacobian is neither exact nor homogeneous in the data).
+    # samples of a lens wavefront are nan where a ray was blocked or lost:
+    # they carry no information and must not enter the solve (one nan row
+    # makes every coefficient nan)
+    masked_rows = any(
+        isinstance(c_, ast.Call) and unparse(c_.func).endswith('lstsq') and
+        len(c_.args) == 2 and all(isinstance(a_, ast.Subscript) and
+                                  isinstance(a_.slice, ast.Name)
+                                  for a_ in c_.args)
+        for c_ in ast.walk(g.node))
+    if masked_rows:
+        res.ok('_fit: non-finite samples are left out of the solve')
+    else:
+        res.fail(ctx.finding(
+            'FIT-STORE', g, g.node,
+            'every sample enters the least-squares solve: a single nan sample '
+            '(ray lost to total internal reflection, central obscuration - '
+            'UVReflectingMicroscope has 252 of them) makes all coefficients '
+            'nan', construct='_fit nan samples'))
+    conv = {unparse(st.targets[0]): unparse(st.value)
+            for st in ast.walk(f.node) if isinstance(st, ast.Assign) and
+            unparse(st.targets[0]) in ('self.x', 'self.y', 'self.z')}
+    if all(conv.get('self.' + k, '').startswith(('np.asarray(' + k,
+                                                  'np.array(' + k))
+           for k in 'xyz'):
+        res.ok('x, y, z are converted to arrays (array-like inputs)')
+    else:
+        res.fail(ctx.finding(
+            'FIT-STORE', f, f.node,
+            'ZernikeFit stores x, y, z as given: lists or tuples (documented '
+            'as array-like) raise TypeError in x**2 + y**2',
+            construct='ZernikeFit inputs not converted'))
     bad = _fit_linear(g)
     if bad:
         res.fail(ctx.finding('FIT-STORE', g, g.node, bad,
